@@ -1,7 +1,7 @@
 //! C15: histories of ArrayBuffer / SharedArrayBuffer / TypedArray / DataView operations executed as
 //! JavaScript on one boa Context per history.
 //!
-//! stdin: `H <id>` starts a history (fresh Context); every other line is one op (see ocaml/C15/c15_driver.ml
+//! stdin: `H <id>` starts a history (fresh Context); `caps` prints which feature-gated builtins exist; every other line is one op (see ocaml/C15/c15_driver.ml
 //! for the grammar, which is shared with the model driver).  stdout: the `H` lines echoed, and one line per
 //! op: `<result>|<buffers>|<views>|-`, where buffers are observed natively (raw bytes through the Rust API,
 //! not through a typed array) and view geometry through the JS accessors.
@@ -259,6 +259,17 @@ fn main() {
             ctx = None;
             dead = false;
             writeln!(out, "{line}").unwrap();
+            continue;
+        }
+        if p[0] == "caps" {
+            // which optional builtins this build of boa has (feature-gated: `experimental` for transfer, `float16`)
+            let mut c = new_context();
+            let probe = "'caps transfer=' + (typeof ArrayBuffer.prototype.transfer === 'function' ? 1 : 0) + ' f16=' + (typeof Float16Array === 'function' ? 1 : 0) + ' resizable=' + (typeof ArrayBuffer.prototype.resize === 'function' ? 1 : 0) + ' growable=' + (typeof SharedArrayBuffer.prototype.grow === 'function' ? 1 : 0)";
+            let r = match c.eval(Source::from_bytes(probe)) {
+                Ok(v) => v.as_string().map(|s| s.to_std_string_escaped()).unwrap_or_else(|| "caps ?".into()),
+                Err(e) => format!("caps error:{}", e.to_string().replace('\n', " ")),
+            };
+            writeln!(out, "{r}").unwrap();
             continue;
         }
         if dead {
